@@ -346,4 +346,268 @@ Qed.
 Lemma drop_step A (a : A) k s : lfacts s -> wpl (drop k ;;; ret a) (fun _ s' => lfacts s') s.
 Proof. intros H. unfold drop. rewrite wp_bind, wp_add_clause, wp_ret. now apply lfacts_add. Qed.
 
+(* ---------- the loops: every state they can stop in satisfies the log facts ---------- *)
+Notation Qf := (fun _ s' => lfacts s').
+
+Lemma compute_maximal_l fuel : forall k s, linvE k s -> wpl (compute_maximal oracle fuel k) Qf s.
+Proof.
+  induction fuel as [|f IH]; intros k s Hi; cbn [compute_maximal].
+  - rewrite wp_out_of_fuel. exact (linv_facts k s Hi).
+  - destruct (c_state k);
+      try (rewrite wp_bind; eapply wp_mono; [|exact (compute_next_step k s Hi)];
+           intros k' s' Hi'; exact (IH k' s' Hi')).
+    apply drop_step. exact (linv_facts k s Hi).
+Qed.
+
+Lemma pr_ds_loop_l fuel F' la sc : forall k s, linvE k s -> wpl (pr_ds_loop oracle fuel F' la sc k) Qf s.
+Proof.
+  induction fuel as [|f IH]; intros k s Hi; cbn [pr_ds_loop].
+  - rewrite wp_out_of_fuel. exact (linv_facts k s Hi).
+  - rewrite wp_bind. eapply wp_mono; [|exact (compute_next_step k s Hi)].
+    intros k' s' Hi'. cbv beta. destruct (c_state k') eqn:Est; try exact (IH k' s' Hi').
+    + destruct (negb (meets la (c_cur k'))); [|exact (IH k' s' Hi')].
+      apply drop_step. exact (linv_facts k' s' Hi').
+    + destruct (meets la (c_cur k')).
+      * rewrite wp_bind. eapply wp_mono; [|exact (discard_current_step k' s' Hi' Est)].
+        intros k'' s'' Hi''. exact (IH k'' s'' Hi'').
+      * destruct (sc && _); [|exact (IH k' s' Hi')].
+        apply drop_step. exact (linv_facts k' s' Hi').
+    + apply drop_step. exact (linv_facts k' s' Hi').
+Qed.
+
+Lemma id_enum_loop_l fuel n' ngr : forall k ia nia np s, linvE k s ->
+  wpl (id_enum_loop oracle fuel n' ngr k ia nia np) Qf s.
+Proof.
+  induction fuel as [|f IH]; intros k ia nia np s Hi; cbn [id_enum_loop].
+  - rewrite wp_out_of_fuel. exact (linv_facts k s Hi).
+  - rewrite wp_bind. eapply wp_mono; [|exact (compute_next_step k s Hi)].
+    intros k' s' Hi'. cbv beta. destruct (c_state k') eqn:Est; try exact (IH k' _ _ _ s' Hi').
+    + cbv zeta. destruct (Nat.eqb _ ngr); [|exact (IH k' _ _ _ s' Hi')].
+      apply drop_step. exact (linv_facts k' s' Hi').
+    + apply drop_step. exact (linv_facts k' s' Hi').
+Qed.
+
+(* a fresh computer satisfies the invariant *)
+Lemma linv_init s : rlog s = L0 -> cls s = C0 -> linvE (K [] None MInit) s.
+Proof.
+  intros Hl Hc. exists [], [], []. unfold linv. cbn [kk c_cur c_model c_state sat_sets n_unsat length map].
+  split; [reflexivity|]. split; [exact Hl|]. split; [now rewrite app_nil_r|].
+  split; [intros S []|]. split; [exact I|]. split; [intros P []|]. split; [exact I|]. split; [reflexivity|].
+  split; reflexivity.
+Qed.
+
 End Core.
+
+(* ------------------------------------------------------------------------------------------ *)
+(** * One connected component *)
+
+(* what is proved of the events [new] a run logged on a component F (n arguments, encoder e) *)
+(* the Sat answers: base sets, pairwise different as sets, hence at most |base| of them *)
+Definition sat_no_twice (e : enc) (F : af) (n : nat) (new : list (nat * event)) : Prop :=
+  (forall S, In S (sat_sets n e new) -> basep (enc_base e) F S) /\
+  sepl (sat_sets n e new) /\
+  length (sat_sets n e new) <= length (all_base (enc_base e) F).
+(* the Unsat answers of a preferred computation: one per preferred extension reached, one for the
+   end of the search *)
+Definition unsat_le_pr (F : af) (new : list (nat * event)) : Prop :=
+  n_unsat new <= length (all_exts PR F) + 1.
+
+Definition since (s0 : Prog.st) (P : list (nat * event) -> Prop) (s' : Prog.st) : Prop :=
+  exists new, rlog s' = new ++ rlog s0 /\ P new.
+
+Lemma wp_conj A (QA QP QF QA' QP' QF' : Prog.st -> Prop) (m : M A) (Q Q' : A -> Prog.st -> Prop) s :
+  wp QA QP QF m Q s -> wp QA' QP' QF' m Q' s ->
+  wp (fun t => QA t /\ QA' t) (fun t => QP t /\ QP' t) (fun t => QF t /\ QF' t) m
+     (fun a t => Q a t /\ Q' a t) s.
+Proof. unfold wp. destruct (m s); auto. Qed.
+
+Lemma wp_result A (QA QP QF : Prog.st -> Prop) (m : M A) (Q : A -> Prog.st -> Prop) s (R : Prog.st -> Prop) :
+  (forall t, QA t -> R t) -> (forall t, QP t -> R t) -> (forall t, QF t -> R t) ->
+  (forall a t, Q a t -> R t) ->
+  wp QA QP QF m Q s ->
+  match m s with Done _ t | Abort t | Panic t | OutOfFuel t => R t end.
+Proof. unfold wp. intros H1 H2 H3 H4. destruct (m s); eauto. Qed.
+
+Lemma no_answer_clauses k (C : cnf) : no_answer (rev (map (fun c => (k, EClause c)) C)).
+Proof.
+  intros k' a r Hin. apply in_rev in Hin. apply in_map_iff in Hin. destruct Hin as [c [E _]]. discriminate.
+Qed.
+Lemma rlog_encoded s r C : exists pre, rlog (st_encoded s r C) = pre ++ rlog s /\ no_answer pre.
+Proof.
+  unfold st_encoded. rewrite st_adds_rlog. destruct r as [k|].
+  - exists (rev (map (fun c => (nsess (st_reserve s k), EClause c)) C) ++ [(nsess s, EReserve k)]).
+    split; [rewrite <- app_assoc; reflexivity|].
+    apply no_answer_app; [apply no_answer_clauses|apply no_answer_cons; [discriminate|apply no_answer_nil]].
+  - eexists. split; [reflexivity|apply no_answer_clauses].
+Qed.
+
+Section Component.
+Variable oracle : nat -> cnf -> list lit -> answer.
+Variable thr : nat.
+Hypothesis Hthr : 1 <= thr.
+Hypothesis Hvalid : valid_oracle oracle.
+Variable e : enc.
+Variable F : af.
+Variable n : nat.
+Hypothesis HF : compact_af F n.
+Hypothesis Hpe : pr_enc e.
+
+Notation base := (basep (enc_base e) F).
+
+(* the encoding and the creation of a computer on an empty session: the computer starts in a
+   state whose session holds exactly the encoder's clauses; nothing was asked yet *)
+Lemma setup_log (QA QP QF : Prog.st -> Prop) fl A (cont : computer -> M A) (Q : A -> Prog.st -> Prop) s :
+  cls s = [] -> sess_bounded s ->
+  (forall C selv s2 pre, enc_clauses e thr false F = Some C -> cls s2 = C ->
+     sess_bounded s2 -> fresh_sel e n C selv ->
+     rlog s2 = pre ++ rlog s -> no_answer pre ->
+     wp QA QP QF (cont (kk e F n selv fl [] None MInit)) Q s2) ->
+  wp QA QP QF (encode_m thr e false F ;;; k <- new_cc_computer e F fl ;; cont k) Q s.
+Proof.
+  intros Hc Hsb HQ. destruct (enc_reserve thr Hthr e F n HF Hpe) as (r & C & HE & Hr).
+  rewrite wp_bind, (wp_encode_m thr _ _ _ e false F (Some r) C _ _ HE).
+  unfold new_cc_computer, new_computer.
+  rewrite (compact_length F n HF), wp_bind, wp_bind, wp_n_vars, wp_ret.
+  set (s1 := st_encoded s (Some r) C).
+  destruct (rlog_encoded s (Some r) C) as (pre & Hpre & Hna). fold s1 in Hpre.
+  apply (HQ C (1 + session_n_vars (sess s1)) (st_nvars s1)
+            ((nsess s1, ENVars (session_n_vars (sess s1))) :: pre)).
+  - exact (enc_clauses_some thr e false F (Some r) C HE).
+  - rewrite cls_nvars. unfold s1. now rewrite cls_encoded, Hc.
+  - apply sb_nvars. unfold s1. now apply sb_encoded.
+  - split; [|split].
+    + replace (1 + session_n_vars (sess s1) - 1) with (session_n_vars (sess s1)) by lia.
+      replace C with (cls s1) by (unfold s1; now rewrite cls_encoded, Hc).
+      apply nvars_fresh. unfold s1. now apply sb_encoded.
+    + lia.
+    + intros a Ha. specialize (Hr a Ha).
+      assert (r <= reserved (sess s1)).
+      { unfold s1, st_encoded. rewrite st_adds_reserved. cbn. lia. }
+      unfold session_n_vars. lia.
+  - rewrite rlog_nvars, Hpre. reflexivity.
+  - apply no_answer_cons; [discriminate|exact Hna].
+Qed.
+
+(* from the facts of the computer to the readable ones, preferred flavour *)
+Lemma lfacts_pref L pre s' : no_answer pre ->
+  lfacts e F n (fun _ => true) (pre ++ L) s' ->
+  exists new, rlog s' = new ++ L /\ sat_no_twice e F n new /\ unsat_le_pr F new.
+Proof.
+  intros Hna (new & Ps & Hl & Hb & Hs & HP & HsP & Hu).
+  exists (new ++ pre). split; [rewrite Hl; apply app_assoc|].
+  unfold sat_no_twice, unsat_le_pr.
+  rewrite sat_sets_app, n_unsat_app, (no_answer_sat n e pre Hna), (no_answer_unsat pre Hna), app_nil_r, Nat.add_0_r.
+  split; [split; [exact Hb|split; [exact Hs|exact (sepl_base_le (enc_base e) F _ Hb Hs)]]|].
+  assert (length Ps <= length (all_exts PR F)); [|lia].
+  apply sepl_pr_le; [|exact HsP]. intros P HPin.
+  apply (maxc_pr e F n HF (pr_base_adm e F Hpe) (pr_pr_base e F n HF Hpe) (fun _ => true)); [reflexivity|now apply HP].
+Qed.
+
+(* any flavour: the Sat answers *)
+Lemma lfacts_sat alw L pre s' : no_answer pre ->
+  lfacts e F n alw (pre ++ L) s' ->
+  exists new, rlog s' = new ++ L /\ sat_no_twice e F n new.
+Proof.
+  intros Hna (new & Ps & Hl & Hb & Hs & _).
+  exists (new ++ pre). split; [rewrite Hl; apply app_assoc|].
+  unfold sat_no_twice. rewrite sat_sets_app, (no_answer_sat n e pre Hna), app_nil_r.
+  split; [exact Hb|split; [exact Hs|exact (sepl_base_le (enc_base e) F _ Hb Hs)]].
+Qed.
+
+Section Preferred.
+Hypothesis Hgr : gr_start F.
+
+Let Hgr0 : cand e F (fun _ => true) (gr0 F).
+Proof. split; [apply (co_base e F Hpe), Hgr|intros a _; reflexivity]. Qed.
+
+Notation PRF := (fun new => sat_no_twice e F n new /\ unsat_le_pr F new).
+
+(* a preferred computer created on an empty session and run by [body]: whatever happens, the
+   events logged since [s] satisfy the facts *)
+Lemma pref_session A (body : computer -> M A) s :
+  cls s = [] -> sess_bounded s ->
+  (forall C selv L0, 
+     (forall v : val, vmodels v C = true -> base (ext_of e n v)) ->
+     (forall S, base S -> exists v : val, vmodels v C = true /\
+                  forall a, a < n -> (v (arg_var e a) = true <-> In a S)) ->
+     bounded C (selv - 1) -> 0 < selv -> (forall a, a < n -> arg_var e a < selv) ->
+     forall k s2, linvE e F n C selv FPref (fun _ => true) L0 k s2 ->
+     wp (lfacts e F n (fun _ => true) L0) (lfacts e F n (fun _ => true) L0) (lfacts e F n (fun _ => true) L0)
+        (body k) (fun _ s' => lfacts e F n (fun _ => true) L0 s') s2) ->
+  wp (since s PRF) (since s PRF) (since s PRF)
+     (encode_m thr e false F ;;; k <- new_cc_computer e F FPref ;; body k)
+     (fun _ s' => since s PRF s') s.
+Proof.
+  intros Hc Hsb Hbody. apply setup_log; [exact Hc|exact Hsb|].
+  intros C selv s2 pre HC Hc2 Hsb2 (Hfresh & Hselpos & Hargs) Hl2 Hna.
+  assert (Hfin : forall t, lfacts e F n (fun _ => true) (rlog s2) t -> since s PRF t).
+  { intros t Ht. rewrite Hl2 in Ht. exact (lfacts_pref (rlog s) pre t Hna Ht). }
+  eapply (wp_conseq _ (lfacts e F n (fun _ => true) (rlog s2)) (lfacts e F n (fun _ => true) (rlog s2))
+            (lfacts e F n (fun _ => true) (rlog s2))); [exact Hfin|exact Hfin|exact Hfin|].
+  eapply wp_mono; [intros a t Ht; exact (Hfin t Ht)|].
+  apply (Hbody C selv (rlog s2)
+           (fun v Hv => all_sound e thr F n Hthr HF C v HC Hv)
+           (fun S HS => all_complete e thr F n Hthr HF C S HC HS) Hfresh Hselpos Hargs).
+  apply linv_init; [reflexivity|exact Hc2].
+Qed.
+
+(* the facts are insensitive to events that are not answers, logged before the session *)
+Lemma prf_pre s1 s pre t : rlog s1 = pre ++ rlog s -> no_answer pre -> since s1 PRF t -> since s PRF t.
+Proof.
+  intros Hl Hna (new & Hn & [(H1 & H2 & H3) H4]). exists (new ++ pre). split; [rewrite Hn, Hl; apply app_assoc|].
+  unfold sat_no_twice, unsat_le_pr in *.
+  rewrite sat_sets_app, n_unsat_app, (no_answer_sat n e pre Hna), (no_answer_unsat pre Hna), app_nil_r, Nat.add_0_r.
+  tauto.
+Qed.
+Lemma prf_nil s : since s PRF s.
+Proof.
+  exists []. split; [reflexivity|]. unfold sat_no_twice, unsat_le_pr. cbn [sat_sets n_unsat length].
+  split; [split; [intros S []|split; [exact I|lia]]|lia].
+Qed.
+Lemma prf_new s t : since (st_new s) PRF t -> since s PRF t.
+Proof.
+  apply (prf_pre (st_new s) s [(S (nsess s), ENew)]); [reflexivity|].
+  apply no_answer_cons; [discriminate|apply no_answer_nil].
+Qed.
+
+(* SE-PR on one component: new session, encoding, computer, compute_maximal *)
+Theorem pr_max_in_cc_log c fuel s : c_af c = F ->
+  match pr_max_in_cc oracle thr fuel e c s with
+  | Done _ t | Abort t | Panic t | OutOfFuel t => since s PRF t
+  end.
+Proof.
+  intros Ec. unfold pr_max_in_cc. rewrite Ec.
+  apply (wp_result _ (since s PRF) (since s PRF) (since s PRF) _ (fun _ t => since s PRF t)); auto.
+  rewrite wp_bind, wp_new_solver.
+  eapply (wp_conseq _ (since (st_new s) PRF) (since (st_new s) PRF) (since (st_new s) PRF));
+    try (intros t; apply prf_new).
+  eapply wp_mono; [intros a t; apply prf_new|].
+  apply (pref_session _ (fun k => l <- compute_maximal oracle fuel k ;; ret (lift c l)));
+    [apply cls_new|apply sb_new|].
+  intros C selv L0 Hs0 Hc0 Hfr Hsp Hargs k s2 Hi. rewrite wp_bind.
+  eapply wp_mono; [|exact (compute_maximal_l oracle Hvalid e F n HF C selv Hs0 Hc0 Hfr Hsp Hargs FPref
+                            (fun _ => true) (fl_ok_pref e n) Hgr0 L0 fuel k s2 Hi)].
+  intros l t Ht. rewrite wp_ret. exact Ht.
+Qed.
+
+(* DS-PR on one component: the counter-example loop, with or without the shortcut *)
+Theorem pr_ds_in_cc_log c fuel al sc s : c_af c = F ->
+  match pr_ds_in_cc oracle thr fuel e c al sc s with
+  | Done _ t | Abort t | Panic t | OutOfFuel t => since s PRF t
+  end.
+Proof.
+  intros Ec. unfold pr_ds_in_cc. rewrite Ec.
+  apply (wp_result _ (since s PRF) (since s PRF) (since s PRF) _ (fun _ t => since s PRF t)); auto.
+  rewrite wp_bind. unfold locals_m. destruct (locals c al) as [la|]; [rewrite wp_ret|rewrite wp_panic; apply prf_nil].
+  rewrite wp_bind, wp_new_solver.
+  eapply (wp_conseq _ (since (st_new s) PRF) (since (st_new s) PRF) (since (st_new s) PRF));
+    try (intros t; apply prf_new).
+  eapply wp_mono; [intros a t; apply prf_new|].
+  apply (pref_session _ (fun k => pr_ds_loop oracle fuel F la sc k)); [apply cls_new|apply sb_new|].
+  intros C selv L0 Hs0 Hc0 Hfr Hsp Hargs k s2 Hi.
+  exact (pr_ds_loop_l oracle Hvalid e F n HF C selv Hs0 Hc0 Hfr Hsp Hargs FPref
+           (fun _ => true) (fl_ok_pref e n) Hgr0 L0 fuel F la sc k s2 Hi).
+Qed.
+
+End Preferred.
+End Component.
